@@ -23,21 +23,32 @@ std::string ToString(const DataVersion& ver) {
   }
 }
 
+// The only accepted form is "<major>.<minor>": decimal digits only (major 0-255, minor 0-65535), exactly one '.'
+// between them and nothing before or after. strtol() on its own also takes leading whitespace and a sign, and says
+// nothing about the character it stopped at, so both are checked here.
+static inline bool IsDecimalDigit(char c) { return c >= '0' && c <= '9'; }
+
 DataVersion FromString(const char* str) {
   char* end_c = nullptr;
   long tmp = 0;
   DataVersion version;
 
+  if (!IsDecimalDigit(*str)) {
+    return INVALID_DATA_VERSION;
+  }
   tmp = strtol(str, &end_c, 10);
-  if (end_c == str || tmp > 0xFF || tmp < 0) {
+  if (end_c == str || tmp > 0xFF || tmp < 0 || *end_c != '.') {
     return INVALID_DATA_VERSION;
   }
   version.major_version = (uint8_t)tmp;
 
   const char* minor_str = end_c + 1;
 
+  if (!IsDecimalDigit(*minor_str)) {
+    return INVALID_DATA_VERSION;
+  }
   tmp = strtol(minor_str, &end_c, 10);
-  if (end_c == minor_str || tmp > 0xFFFF || tmp < 0) {
+  if (end_c == minor_str || tmp > 0xFFFF || tmp < 0 || *end_c != '\0') {
     return INVALID_DATA_VERSION;
   }
   version.minor_version = (uint16_t)tmp;
